@@ -493,9 +493,133 @@ func runCloseRaceCase(c closeRaceCase) *fail {
 	return nil
 }
 
+// notifyRaceCase: a rename's Renamed notification for a File is held inside
+// the backend while the last fid of that File goes away (its connection ends:
+// the only way of dropping a fid that does not wait for the rename lock).
+// When the notification returns, the reference the rename took around it is
+// the last one, so the rename handler itself releases the File.
+type notifyRaceCase struct {
+	Native bool   `json:"native_walkgetattr"`
+	Rename string `json:"rename"` // renameat-same | renameat-cross | rename-same | rename-cross
+	Extra  int    `json:"extra"`  // further fids on the victim's connection bound to the same entry
+}
+
+var notifyRaceRenames = []string{"renameat-same", "renameat-cross", "rename-same", "rename-cross"}
+
+func runNotifyRaceCase(c notifyRaceCase) *fail {
+	fs := memfs.New(memfs.Options{NativeWalkGetAttr: c.Native})
+	memtree.Populate(fs.Tree)
+	srv := p9.NewServer(fs)
+	s1, s2 := peers.Start(srv), peers.Start(srv)
+	desc := fmt.Sprintf("%+v", c)
+	for _, s := range []*peers.Session{s1, s2} {
+		if _, err := s.Version(64<<10, "9P2000.L.Google.7"); err != nil {
+			return failf("harness-version", "HARNESS-ERROR %v", err)
+		}
+	}
+	setup := func(s *peers.Session, ms ...*refcodec.Msg) *fail {
+		for _, m := range ms {
+			m.Tag = s.Tag()
+			r, err := s.Call(m)
+			if err != nil {
+				return failf("no-reply:setup", "%s: %v (%s)", m, err, desc)
+			}
+			if r.Type == refcodec.Rlerror {
+				return failf("harness-setup", "HARNESS-ERROR %s => %s", m, r)
+			}
+		}
+		return nil
+	}
+	// connection 1: fids 1.. -> /d/f, each with its own File (the victims)
+	before := fs.Seq()
+	if f := setup(s1, tAttach(0, nofid, "")); f != nil {
+		return f
+	}
+	for i := 0; i <= c.Extra; i++ {
+		if f := setup(s1, tWalk(0, uint64(1+i), "d", "f")); f != nil {
+			return f
+		}
+	}
+	victims := map[int]bool{}
+	for _, cl := range fs.LogSince(before) {
+		if cl.New != 0 && (cl.Op == "Walk" || cl.Op == "WalkGetAttr") {
+			victims[cl.New] = true // includes the intermediate File for /d, which gets no notification
+		}
+	}
+	// connection 2: fid 10 -> /, 11 -> /d, 12 -> /d/f
+	if f := setup(s2, tAttach(10, nofid, ""), tWalk(10, 11, "d"), tWalk(10, 12, "d", "f")); f != nil {
+		return f
+	}
+	gate := memfs.NewGate(func(cl *memfs.Call) bool { return cl.Op == "Renamed" && victims[cl.Handle] })
+	fs.AddGate(gate)
+	defer gate.Release()
+	var ren *refcodec.Msg
+	switch c.Rename {
+	case "renameat-same":
+		ren = tRenameat(11, "f", 11, "f2")
+	case "renameat-cross":
+		ren = tRenameat(11, "f", 10, "moved")
+	case "rename-same":
+		ren = tRename(12, 11, "f2")
+	default:
+		ren = tRename(12, 10, "moved")
+	}
+	ren.Tag = 300
+	s2.Send(refcodec.Encode(ren))
+	select {
+	case <-gate.Entered:
+	case <-time.After(20 * time.Second):
+		return failf("harness-gate", "HARNESS-ERROR %s never reached Renamed on a victim (%s); log: %s", ren, desc, logString(fs.LogSince(before)))
+	}
+	// connection 1 goes away while the notification is inside the backend: its
+	// fids are dropped, the Files stay alive only through the rename
+	// (releasing a victim the rename has not reached yet may wait for the
+	// rename's hold on the directory's child table, so Handle need not return
+	// before the notification does)
+	s1.Close(300 * time.Millisecond)
+	check := func(when string) *fail {
+		for _, a := range fs.Anomalies() {
+			if a.Kind == "use-after-close" || a.Kind == "double-close" || a.Kind == "close-during-call" {
+				return failf(a.Sig+":during-notification", "%s (%s): %s %s (%s)", a.Kind, when, a.A, a.B, desc)
+			}
+		}
+		return nil
+	}
+	if f := check("while Renamed was held"); f != nil {
+		return f
+	}
+	gate.Release()
+	r, err := s2.Recv(20 * time.Second)
+	if err != nil {
+		return failf("hang-after-notification:"+c.Rename, "the rename was not answered after its held notification returned (%v; %s); inside backend: %v", err, desc, fs.Inside())
+	}
+	if m, derr := refcodec.DecodeStrict(r); derr != nil || m.Type == refcodec.Rlerror {
+		return failf("rename-failed:notify-race", "%s => %v %v (%s)", ren, m, derr, desc)
+	}
+	// the server must still be serving
+	probe := withTag(tGetattr(10), 301)
+	s2.Send(refcodec.Encode(probe))
+	if _, err := s2.Recv(20 * time.Second); err != nil {
+		return failf("hang-after-notification:probe", "a getattr after the rename was not answered (%v; %s)", err, desc)
+	}
+	if !s1.Close(20*time.Second) || !s2.Close(20*time.Second) {
+		return failf("handle-did-not-return", "Handle did not return after the notification race (%s)", desc)
+	}
+	if f := check("at the end"); f != nil {
+		return f
+	}
+	for _, h := range fs.Handles() {
+		if h.Closes != 1 {
+			return failf(fmt.Sprintf("closed-%d-times-at-teardown", min(h.Closes, 2)), "File h%d (%s) closed %d times after the notification race (%s); log: %s", h.ID, h.Path, h.Closes, desc, logString(fs.LogSince(0)))
+		}
+	}
+	return nil
+}
+
 func init() {
 	replayRegistrars = append(replayRegistrars, func() {
 		registerReplay("C05/close-race", runCloseRaceCase)
+		registerReplay("C05/notify-race", runNotifyRaceCase)
 		registerReplay("C05/sessions", func(c seqCase) *fail { c.Life = true; return runSeqCase(c, nil) })
 		registerReplay("C05/path-sessions", func(c pathCase) *fail { c.Life = true; return runPathCase(c, nil) })
 		registerReplay("C05/cuts", func(c cutCase) *fail { return runCutCase(c, nil) })
@@ -637,6 +761,25 @@ func TestC05(t *testing.T) {
 			}
 		}
 		h.Exhaustive(fmt.Sprintf("held final Close x %d concurrent requests on the same entry x {same, other connection} x 2 backends", len(closeRaceOthers)))
+		// (f) the last fid of a File goes away (disconnect) while a rename's
+		// notification for that File is held: the rename handler releases it
+		for _, ren := range notifyRaceRenames {
+			for extra := 0; extra <= 2; extra++ {
+				for _, native := range []bool{false, true} {
+					c := notifyRaceCase{Native: native, Rename: ren, Extra: extra}
+					f := runNotifyRaceCase(c)
+					h.Case(evid.HashJSON(c), true, "notify-race:"+ren)
+					if f != nil && strings.HasPrefix(f.Sig, "harness-") {
+						t.Errorf("HARNESS-ERROR %s", f.Msg)
+						continue
+					}
+					if h.report("notify-race", f, c) {
+						return
+					}
+				}
+			}
+		}
+		h.Exhaustive(fmt.Sprintf("held Renamed notification x %d renames x 1-3 victim fids dropped by disconnect x 2 backends", len(notifyRaceRenames)))
 		h.Sample("clunk-race", raceCase{Native: true, Op: "read", Unbind: "clunk"})
 	}
 }
